@@ -72,6 +72,41 @@ def gen(tier, seed):
             recs.append(NW.measure_bool(rid, A, B, lift, fname, call, DELTA, None, None, proxy, normal=u))
             meta[rid] = {"A": A.describe(), "B": B.describe(), "clsA": A.classes()[0], "clsB": B.classes()[0], "fn": fname,
                          "lift": [lift[0], lift[1].tolist(), lift[2].tolist()]}
+    # polytope pairs at the smallest feature sizes of the domain with a clear gap of 2..5 delta and generic lateral offsets, chosen
+    # (among 40 random offsets) so that the origin lies close to the line through the first two simplex points of a GJK started
+    # from first_vertex() - the branch "origin on the first edge" of the simplex case analyses, whose tolerance is absolute
+    def first_edge_dist(ca, cb):
+        w0 = np.asarray(ca.first_vertex(), dtype=float) - np.asarray(cb.first_vertex(), dtype=float)
+        if not w0.any():
+            return 1e9
+        wa = np.asarray(ca.support_function(-w0), dtype=float) - np.asarray(cb.support_function(w0), dtype=float)
+        ab = w0 - wa
+        return 1e9 if not ab.any() else float(np.linalg.norm(np.cross(ab, -wa)) / np.linalg.norm(ab))
+    cnt = 0
+    for A, B0 in NW.gen_scenes(rng, 1200 if tier == "quick" else 20000, rounds=False):
+        if A.margin or B0.margin or A.spec["kind"] not in ("hull", "box") or B0.spec["kind"] not in ("hull", "box"):
+            continue
+        cnt += 1
+        if cnt > (80 if tier == "quick" else 1500):
+            break
+        lift = NW.random_lift(rng, A, B0, "tiny")
+        L = NW.scene_L(A, B0, lift)
+        best = None
+        for _ in range(40):
+            B1 = NW.Body(B0.spec, B0.M, B0.t + np.array([rng.uniform(-1.5, 1.5) for _ in range(3)]), B0.margin, B0.cls)
+            Bc, uc = NW.graze(A, B1, rng, DELTA * L / lift[0], ks=(2, 3, 5))
+            fd = first_edge_dist(A.build(lift), Bc.build(lift))
+            if best is None or fd < best[0]:
+                best = (fd, Bc, uc)
+        _, B, u = best
+        for fname, (call, proxy, only) in fns.items():
+            if only is not None:
+                continue
+            n += 1
+            rid = f"b{n}"
+            recs.append(NW.measure_bool(rid, A, B, lift, fname, call, DELTA, None, None, proxy, normal=u))
+            meta[rid] = {"A": A.describe(), "B": B.describe(), "clsA": A.classes()[0], "clsB": B.classes()[0], "fn": fname,
+                         "lift": [lift[0], lift[1].tolist(), lift[2].tolist()], "family": "first-edge"}
     # primitives-only algorithms: a dense sweep of aligned primitive pairs (cheap, fully compiled)
     for A, B0 in NW.gen_prim_scenes(rng, 1200 if tier == "quick" else 30000):
         lift = NW.random_lift(rng, A, B0, rng.choice(("id", "id", "scale", "rigid")))
